@@ -240,9 +240,12 @@ SplitNl(lex) == SplitFrom(lex, 1, <<>>, <<>>)                              \* se
 RECURSIVE DropTrailingEmpty(_)
 DropTrailingEmpty(ls) == IF Len(ls) > 0 /\ ls[Len(ls)] = <<>> THEN DropTrailingEmpty(SubSeq(ls, 1, Len(ls) - 1)) ELSE ls
 
-\* A directive continued over k physical lines: the golden files do not say how many empty lines
-\* it leaves (that is C14's business), so for such sources empty lines are not compared.
-MultiLineDirective(src) == \E i \in 1..Len(src) : src[i].k \in {"defobj", "deffn"} /\ Len(src[i].segs) > 1
+\* A directive or a text line continued over k physical lines: the golden files only say that the
+\* pieces are joined; how many empty lines make up for the swallowed newlines is C14's business,
+\* so for such sources empty lines are not compared.
+MultiLineDirective(src) == \E i \in 1..Len(src) :
+    /\ (src[i].k \in {"defobj", "deffn"} \/ (src[i].k = "text" /\ src[i].join = "bs"))
+    /\ Len(src[i].segs) > 1
 NormLines(src, ls) ==
     LET a == [j \in 1..Len(ls) |-> NoWs(ls[j])]
     IN IF MultiLineDirective(src) THEN SelectSeq(a, LAMBDA x : x # <<>>) ELSE DropTrailingEmpty(a)
